@@ -73,6 +73,28 @@ PROPS = {
         "thorough": [L("checked", 1.0), L("wrapping", 1.0), L("asan", 0.1), L("memcheck", 0.002, workers=16), L("miri", 0.0001, workers=16)],
         "assumptions": COMMON_ASSUME,
     },
+    "C15": {
+        "quick": [L("checked", 1.0), L("wrapping", 0.25)],
+        "thorough": [L("checked", 1.0), L("wrapping", 0.25), L("asan", 0.05), L("miri", 0.00002, workers=8)],
+        "assumptions": COMMON_ASSUME,
+    },
+    "C16": {
+        "quick": [L("checked", 1.0), L("wrapping", 0.25)],
+        "thorough": [L("checked", 1.0), L("wrapping", 0.25), L("asan", 0.05), L("miri", 0.00002, workers=8)],
+        "assumptions": COMMON_ASSUME + ["file names are never `Count`, `Info` or `Data`: the format looks those labels up by name and the statement assumes one label of each"],
+    },
+    "C17": {
+        "quick": [L("checked", 1.0), L("wrapping", 0.125)],
+        "thorough": [L("checked", 1.0), L("wrapping", 0.125), L("miri", 0.00005, workers=8)],
+        "assumptions": COMMON_ASSUME,
+        "exhaustive_notes": ["a set with exactly one present slot, at each of the 256 positions in turn"],
+    },
+    "C18": {
+        "quick": [L("checked", 1.0), L("wrapping", 0.125)],
+        "thorough": [L("checked", 1.0), L("wrapping", 0.125), L("miri", 0.00005, workers=8)],
+        "assumptions": COMMON_ASSUME,
+        "exhaustive_notes": ["each of the 33 optional strings and 18 typed fields present alone, and every pair of adjacent fields"],
+    },
     "C02": {
         "quick": [L("checked", 1.0), L("wrapping", 0.25), L("checked", 1.0, mode="det", replicas=8)],
         "thorough": [L("checked", 1.0), L("wrapping", 0.25), L("checked", 1.0, mode="det", replicas=16),
